@@ -396,7 +396,7 @@ def fam_stop(tier, outdir):
     consts = {"Handles": "{1}", "MaxTime": 5, "MaxCalls": 4, "PipeCap": 4, "MaxOut": 0, "ExitCodes": "{3}", "TermDelay": 1,
               "DlOpts": "{0, 2}", "Timeouts": "{0, 2}", "MaxStops": 1, "ThirdActs": '"Small"'}
     if tier == "thorough":
-        consts.update({"MaxTime": 6, "MaxCalls": 5, "Timeouts": "{0, 2, 3}", "MaxStops": 2, "ThirdActs": '"All"'})
+        consts.update({"MaxTime": 6, "MaxCalls": 4, "Timeouts": "{0, 2, 3}", "MaxStops": 1, "ThirdActs": '"All"'})
     cfg = os.path.join(outdir, "MC_Stop.cfg")
     write_cfg(cfg, "Spec", consts, ["TypeOK", "LifeChild", "WaitTruthful", "NoSignalAfterReap"], export_stride=1)
     return run_tlc_export("stop", "MC_Stop", cfg, outdir, tier, asan_stride=16 if tier == "quick" else 4)
@@ -409,7 +409,7 @@ def fam_life(tier, outdir):
         consts.update({"MaxCalls": 6, "Depth": '"full"', "MaxTime": 2})
     cfg = os.path.join(outdir, "MC_Life.cfg")
     write_cfg(cfg, "Spec", consts, ["TypeOK", "LifeChild", "Conservation"], props=["LifeOrder"], export_stride=2 if tier == "quick" else 1)
-    return run_tlc_export("life", "MC_Life", cfg, outdir, tier, asan_stride=4 if tier == "quick" else 2)
+    return run_tlc_export("life", "MC_Life", cfg, outdir, tier, asan_stride=4 if tier == "quick" else 16)
 
 
 def fam_restart(tier, outdir):
@@ -434,10 +434,10 @@ def fam_poll(tier, outdir):
     consts = {"Handles": "{1, 2}", "MaxTime": 3, "MaxCalls": 6, "PipeCap": 4, "MaxOut": 1, "ExitCodes": "{3}", "TermDelay": 1,
               "DlOpts": "{0, 2}", "Timeouts": "{0, 2}", "Masks": "{10, 15}", "MaxSrc": 2, "MaxPolls": 1}
     if tier == "thorough":
-        consts.update({"Timeouts": "{0, 1, 3}", "Masks": "{2, 10, 15, 0, 31}", "MaxSrc": 3, "MaxPolls": 2, "MaxCalls": 7})
+        consts.update({"Timeouts": "{0, 1, 3}", "Masks": "{2, 10, 15, 0, 31}", "MaxSrc": 3, "MaxPolls": 2})
     cfg = os.path.join(outdir, "MC_Poll.cfg")
     write_cfg(cfg, "Spec", consts, ["TypeOK", "LifeChild", "PollBounded"], export_stride=7 if tier == "quick" else 1)
-    return run_tlc_export("poll", "MC_Poll", cfg, outdir, tier, asan_stride=16 if tier == "quick" else 8, tlc_workers=10,
+    return run_tlc_export("poll", "MC_Poll", cfg, outdir, tier, asan_stride=16 if tier == "quick" else 32, tlc_workers=10,
                           stride=1)
 
 
